@@ -1,5 +1,6 @@
 import SaVerif.Lemmas.Pratt
 import SaVerif.Lemmas.ExprCore
+import SaVerif.Lemmas.ExprBuild
 import SaVerif.Model.Expr
 import SaVerif.Model.ExprGrammar
 import SaVerif.Model.ExprEval
@@ -200,6 +201,65 @@ theorem core_postgresql (e : SaExpr) (hC : Core e = true) (hW : WG e = true) :
 theorem core_mysql (e : SaExpr) (hC : Core e = true) (hW : WG e = true) :
     parse mysql (render .mysql true e).print = some (render .mysql true e).norm :=
   core_render_read_back .mysql mysql coreCompat_mysql prefixNoTern_mysql e hC hW
+
+/-! ### from the API calls to the backend's reading
+
+`NumU` / `BoolU`: API-call trees over integer / numeric columns and literals with `+ - * %`,
+unary minus, the six comparisons, `is_` / `is_not`, comparison with `None`, `and_` / `or_` of any
+number of clauses (nested any way) and `~`.  `build` applies the transcribed constructors in
+Python's evaluation order. -/
+
+/-- `build` of a tree of the fragment is in the core fragment and well grouped -/
+theorem build_core_WG (u : U) (e : SaExpr) (hu : NumU u = true ∨ BoolU u = true)
+    (hb : build u = some e) : Core e = true ∧ WG e = true := by
+  rcases hu with h | h
+  · exact ⟨(build_num u e h hb).core, (build_num u e h hb).wg⟩
+  · exact ⟨(build_bool u e h hb).core, (build_bool u e h hb).wg⟩
+
+/-- **api_tree_read_back** — the end-to-end statement for the fragment: for EVERY API-call tree
+    `u` (any size, any nesting), every dialect's compiler and every grammar compatible with
+    the regenerated precedence table, the backend reads the emitted text back as the emitted
+    tree (up to re-association of `+ * AND OR` chains). -/
+theorem api_tree_read_back (d : Dialect) (g : Grammar) (hg : coreCompat g = true)
+    (hpt : prefixNoTern g) (u : U) (e : SaExpr) (hu : NumU u = true ∨ BoolU u = true)
+    (hb : build u = some e) :
+    parse g (render d true e).print = some (render d true e).norm :=
+  core_render_read_back d g hg hpt e (build_core_WG u e hu hb).1 (build_core_WG u e hu hb).2
+
+/-- **render_meaning_preserved** (fragment, end to end): the value the backend computes from the
+    emitted text is the value of the fully parenthesised rendering, for every row and every
+    interpretation of the operators in which parentheses are transparent and `+ * AND OR`
+    associative (three-valued logic included). -/
+theorem render_meaning_preserved {V : Type} (d : Dialect) (g : Grammar)
+    (hg : coreCompat g = true) (hpt : prefixNoTern g) (I : Interp V)
+    (hassoc : ∀ s, G.assocSym s = true → ∀ a b c, I.inf s (I.inf s a b) c = I.inf s a (I.inf s b c))
+    (hparen : ∀ v, I.br .paren v = v)
+    (u : U) (e : SaExpr) (hu : NumU u = true ∨ BoolU u = true) (hb : build u = some e) :
+    (parse g (render d true e).print).map (evalG I) = some (evalG I (render d true e).fullParen) :=
+  core_render_meaning_preserved d g hg hpt I hassoc hparen e
+    (build_core_WG u e hu hb).1 (build_core_WG u e hu hb).2
+
+theorem api_tree_read_back_sqlite (u : U) (e : SaExpr) (hu : NumU u = true ∨ BoolU u = true)
+    (hb : build u = some e) :
+    parse sqlite (render .sqlite true e).print = some (render .sqlite true e).norm :=
+  api_tree_read_back .sqlite sqlite coreCompat_sqlite prefixNoTern_sqlite u e hu hb
+
+theorem api_tree_read_back_postgresql (u : U) (e : SaExpr) (hu : NumU u = true ∨ BoolU u = true)
+    (hb : build u = some e) :
+    parse postgresql (render .postgresql true e).print = some (render .postgresql true e).norm :=
+  api_tree_read_back .postgresql postgresql coreCompat_postgresql prefixNoTern_postgresql u e hu hb
+
+theorem api_tree_read_back_mysql (u : U) (e : SaExpr) (hu : NumU u = true ∨ BoolU u = true)
+    (hb : build u = some e) :
+    parse mysql (render .mysql true e).print = some (render .mysql true e).norm :=
+  api_tree_read_back .mysql mysql coreCompat_mysql prefixNoTern_mysql u e hu hb
+
+/-- non-vacuity: a tree of the fragment with nesting, flattening, negation and `IS NULL` -/
+example : BoolU (.not_ (.and_ [.bin .eq (.col "a" .int) (.li 1),
+      .or_ [.bin .lt (.col "b" .int) (.bin .add (.col "c" .int) (.bin .add (.col "d" .num) (.li 2))),
+            .not_ (.bin .is_ (.neg (.col "a" .int)) .null)],
+      .and_ [.bin .ge (.bin .mod (.col "a" .int) (.li 3)) (.li 0)]])) = true := by
+  decide
 
 /-- the constructors establish the hypothesis `WG` (and stay in the fragment):
     `BinaryExpression.__init__`, `UnaryExpression.__init__`, `_construct_for_list` -/
